@@ -12,6 +12,7 @@ import sys
 from fractions import Fraction
 
 import numpy as np
+import os
 import z3
 
 from . import engine as eng
@@ -25,15 +26,18 @@ MARGIN = Fraction(1, 64)
 EPS = Fraction(1, 1024)
 
 
-def strengthen(e, positive=True):
+EPS_FINE = Fraction(1, 2 ** 44)  # second level: far above one ulp for values of moderate size, for paths that hinge on a tiny tolerance
+
+
+def strengthen(e, positive=True, eps_q=None):
     """push a path-condition formula away from ties: every order atom gets a margin EPS, so that a
     model of the result drives the float run down the same path (used only to *pick* models)"""
     k = e.decl().kind() if z3.is_app(e) else None
-    eps = rv(EPS)
+    eps = rv(EPS if eps_q is None else eps_q)
     if k == z3.Z3_OP_NOT:
-        return strengthen(e.arg(0), not positive)
+        return strengthen(e.arg(0), not positive, eps_q)
     if k in (z3.Z3_OP_AND, z3.Z3_OP_OR):
-        parts = [strengthen(c, positive) for c in e.children()]
+        parts = [strengthen(c, positive, eps_q) for c in e.children()]
         conj = (k == z3.Z3_OP_AND) == positive
         return z3.And(*parts) if conj else z3.Or(*parts)
     if k in (z3.Z3_OP_LE, z3.Z3_OP_GE, z3.Z3_OP_LT, z3.Z3_OP_GT):
@@ -72,14 +76,15 @@ def _is_sym(x):
 
 
 class Violation:
-    def __init__(self, label, detail, inputs, exc=None):
+    def __init__(self, label, detail, inputs, exc=None, nice=True):
         self.label = label
         self.detail = detail
         self.inputs = inputs  # list of [name, kind, value] in creation order
         self.exc = exc
+        self.nice = nice  # the model's real inputs are small dyadic rationals (the float replay is then meaningful)
 
     def to_json(self):
-        return {"label": self.label, "detail": self.detail, "inputs": self.inputs, "exc": self.exc}
+        return {"label": self.label, "detail": self.detail, "inputs": self.inputs, "exc": self.exc, "nice": self.nice}
 
 
 class BaseCtx:
@@ -259,12 +264,26 @@ class SymCtx(BaseCtx):
             if kind == "real":
                 k = z3.Int("dy!" + name)
                 dy.append(z3.And(term * 1024 == z3.ToReal(k), term <= 4096, term >= -4096))
+        strong_fine = None
+        if strong is not None and (margin_terms is not None or neg is not None):
+            # a path that hinges on a tiny tolerance (x*(1+1e-12) against x) has no model with the coarse margin unless the
+            # coordinates are huge, where the float replay is meaningless: try a fine margin in the moderate range first
+            try:
+                keep = (getattr(self, "tie_risk", False), getattr(self, "tie_atom", None))
+                strong_fine = self._consistent_strengthening(EPS_FINE)
+                self.tie_risk, self.tie_atom = keep
+            except z3.Z3Exception:
+                strong_fine = None
         if strong is not None:
             if margin_terms is not None:
                 tries.append([margin_terms] + strong + dy)
+                if strong_fine is not None:
+                    tries.append([margin_terms] + strong_fine + dy)
                 tries.append([margin_terms] + strong)
             if neg is not None:
                 tries.append([neg] + strong + dy)
+                if strong_fine is not None:
+                    tries.append([neg] + strong_fine + dy)
                 tries.append([neg] + strong)
             else:
                 tries.append(strong + dy)
@@ -288,19 +307,22 @@ class SymCtx(BaseCtx):
             s.set("timeout", min(old, 3000) if i < len(tries) - 1 else old)
             E.n_queries += 1
             r = s.check(*extra)
+            if os.environ.get("VERIF_DEBUG_MODEL"):
+                print("nice_model try %d/%d -> %s (fine=%s)" % (i, len(tries), r, strong_fine is not None), flush=True)
             if r == z3.sat:
                 m = s.model()
                 s.set("timeout", old)
+                self.last_model_nice = (not dy) or any(x is dy[0] for x in extra)
                 return m
         s.set("timeout", old)
         return None
 
-    def _consistent_strengthening(self):
+    def _consistent_strengthening(self, eps_q=None):
         """margin versions of the path-condition atoms, minus those that cannot hold with a margin
         (inherent ties such as max(a*a, (-a)*(-a))), found through unsat cores"""
         E = self.E
         s = E.solver
-        strong = [(i, strengthen(c)) for i, c in enumerate(E.pc)]
+        strong = [(i, strengthen(c, True, eps_q)) for i, c in enumerate(E.pc)]
         strong = [(i, c) for i, c in strong if not c.eq(E.pc[i])]
         # one representative per distinct atom
         seen = {}
@@ -357,7 +379,8 @@ class SymCtx(BaseCtx):
         if key in self._seen_labels:
             return
         self._seen_labels.add(key)
-        self.candidates.append(Violation(label, detail, self._inputs_from_model(model), exc))
+        self.candidates.append(Violation(label, detail, self._inputs_from_model(model), exc, nice=getattr(self, "last_model_nice", True)))
+        self.last_model_nice = True
 
     def _exception(self, label, ex):
         lab = "exception:" + label
@@ -409,6 +432,8 @@ class SymCtx(BaseCtx):
             self.repeat_fail(label)
             return False
         m2 = self._nice_model(neg=z3.Not(cond), margin_terms=margin)
+        if m2 is None:
+            self.last_model_nice = False
         self._record(label, detail, m2 or m)
         return False
 
